@@ -105,6 +105,16 @@ where
     let (advice, challenges) =
         parse_advices(params, pk, circuits, instances, transcript, &mut rng)?;
 
+    #[cfg(feature = "verif-hooks")]
+    {
+        use crate::plonk::verif_hooks::on_argument_vector;
+        on_argument_vector("challenges", &challenges);
+        for (instance, advice) in instance.iter().zip(advice.iter()) {
+            advice.advice_polys.iter().for_each(|col| on_argument_vector("advice", col));
+            instance.instance_values.iter().for_each(|col| on_argument_vector("instance", col));
+        }
+    }
+
     // Sample theta challenge for keeping lookup columns linearly independent
     let theta: F = transcript.squeeze_challenge();
 
